@@ -765,6 +765,51 @@ def sch_onlydispatch(ctx: Ctx) -> RuleResult:
     return r
 
 
+def sch_poolown(ctx: Ctx) -> RuleResult:
+    """The worker pool belongs to one execution: it is created by the scheduler for this run and bound to a local.
+
+    A pool kept in a cache (per thread, per size, module level) is shared by executions that overlap - concurrent awaits of an
+    AsyncDAG in one loop, a DAG called inside a node: each scheduler counts max_concurrency free slots of a pool that has
+    max_concurrency workers in total, so ready nodes queue inside the pool while every scheduler believes they run."""
+    r = RuleResult("SCH-POOLOWN")
+    m = model(ctx)
+    kept = getattr(m, "pool_kept_in", None)
+    r.ob(kept is None, {"pool": norm_src(m.pool_ctor), "bound to": m.pool_var, "kept in": norm_src(kept) if kept is not None else None})
+    if kept is not None:
+        r.violate(f"{m.fn.short}: the worker pool is kept in {norm_src(kept.value)} and reused by later / overlapping executions", _where(m, m.pool_ctor),
+                  "two executions that overlap on one thread (asyncio.gather of an AsyncDAG, a DAG run inside a node) share the workers: "
+                  "each counts its own max_concurrency slots, the pool runs max_concurrency nodes in total - ready nodes idle in the "
+                  "pool's queue although the scheduler believes they are in flight", norm_src(kept))
+    return r
+
+
+def sch_ownthread(ctx: Ctx) -> RuleResult:
+    """The scheduler runs on the thread that invoked the DAG: its entry functions are only ever *called* (and awaited), never handed
+    as a value to something that would run them elsewhere (asyncio.to_thread, run_in_executor, submit, Thread(target=..)).
+
+    Main-thread nodes run inline in the scheduler: where the scheduler runs is where they run."""
+    r = RuleResult("SCH-OWNTHREAD")
+    m = model(ctx)
+    entries = {m.fn.qualname} | {q for q in ctx.P.funcs if ctx.P.funcs[q].cls is None and ctx.P.funcs[q].name in ("sync_execute", "async_execute")}
+    names = {q.rsplit(".", 1)[-1] for q in entries}
+    n = 0
+    for f in ctx.funcs():
+        if f.module.name.endswith("_twzsa_control"):
+            continue
+        called = {id(c.func) for c in iter_own_nodes(f.node) if isinstance(c, ast.Call)}
+        for x in iter_own_nodes(f.node):
+            if isinstance(x, ast.Name) and x.id in names and isinstance(x.ctx, ast.Load) and ctx.P.resolve_name(f.module, x.id) in entries:
+                n += 1
+                ok = id(x) in called
+                r.ob(ok, {"scheduler entry referenced in": f.short, "as": "a call" if ok else "a value"})
+                if not ok:
+                    r.violate(f"{f.short}: the scheduler entry {x.id} is handed over as a value instead of being called", f.loc(x),
+                              "whatever receives it (asyncio.to_thread, an executor, a Thread) runs the scheduler - and with it every "
+                              "main-thread node - on another thread than the one that invoked the DAG", norm_src(x))
+    r.require(n >= 4, f"only {n} references to the scheduler entries found")
+    return r
+
+
 def sch_stalepick(ctx: Ctx) -> RuleResult:
     """After a node has run on the scheduler's own thread (an unbounded time), finished pooled nodes are collected before the
     next selection - otherwise a node whose dependencies finished meanwhile is not among the candidates."""
@@ -1070,9 +1115,20 @@ def sch_active(ctx: Ctx) -> RuleResult:
     # 1. absent flag -> True
     none_ok = False
     for s in f.node.body:
-        if isinstance(s, ast.If) and norm_src(s.test) in (f"{xn}.active is None",) and len(s.body) == 1 and \
-                isinstance(s.body[0], ast.Return) and isinstance(s.body[0].value, ast.Constant) and s.body[0].value.value is True:
-            none_ok = True
+        if isinstance(s, ast.If) and len(s.body) == 1 and isinstance(s.body[0], ast.Return) and isinstance(s.body[0].value, ast.Constant) \
+                and s.body[0].value.value is True:
+            disj = s.test.values if isinstance(s.test, ast.BoolOp) and isinstance(s.test.op, ast.Or) else [s.test]
+            for d_ in disj:
+                if norm_src(d_) == f"{xn}.active is None":
+                    none_ok = True
+                else:
+                    r.ob(False, {"taken for active when": norm_src(d_)})
+                    r.violate(f"{f.short}: a node is taken for active on another condition than 'it has no activation reference'", f.loc(s),
+                              "an activation reference whose producer did not run in this call (it was itself deactivated, or left out of "
+                              "the selection) reads as None - falsy: the node is deactivated; treating the missing value as 'active' runs "
+                              "nodes whose flag was never true", norm_src(d_))
+    if r.findings:
+        return r
     r.ob(none_ok, {"absent flag means active": none_ok})
     if not none_ok:
         raise Undecided(f"{f.short}: 'no activation reference -> active' not recognised")
@@ -1227,7 +1283,7 @@ def sch_bidict(ctx: Ctx) -> RuleResult:
 
 
 RULES = {
-    "SCH-ORIGIN": sch_origin, "SCH-RSET": sch_rset, "SCH-ROOTS": sch_roots, "SCH-DONE": sch_done, "SCH-ONCE": sch_once,
+    "SCH-OWNTHREAD": sch_ownthread, "SCH-POOLOWN": sch_poolown, "SCH-ORIGIN": sch_origin, "SCH-RSET": sch_rset, "SCH-ROOTS": sch_roots, "SCH-DONE": sch_done, "SCH-ONCE": sch_once,
     "SCH-PRUNE": sch_prune, "SCH-BOUND": sch_bound, "SCH-COUNT": sch_count, "SCH-ARMS": sch_arms,
     "SCH-SEQ-PRE": sch_seq_pre, "SCH-SEQ-POST": sch_seq_post, "SCH-PRIO": sch_prio, "SCH-FRESHPICK": sch_freshpick,
     "SCH-WAITSITES": sch_waitsites, "SCH-WAITMODE": sch_waitmode, "SCH-GUARD": sch_guard, "SCH-MIXWAIT": sch_mixwait,
